@@ -234,25 +234,26 @@ def run(ctx):
                                       {"class": cname, "method": meth, "kw": kw, "form": fname, "x": Xq.tolist(), "time": t0,
                                        "observed": o[1] if o[0] == "err" else "differs"})
                 # multi_time: column k equals the time=t_k result
-                mt = [0.0, 2.0, 0.0]
-                o = enc.outcome(lambda: f(Xq, multi_time=mt, **kw))
-                real_calls += 1
-                if o[0] != "ok":
-                    ctx.violation("C13|%s|%s|multi_time|%s" % (cname, meth, o[1]), "multi_time call fails",
-                                  {"class": cname, "method": meth, "kw": kw, "multi_time": mt})
-                else:
-                    outs = o[1] if isinstance(o[1], tuple) else (o[1],)
-                    for k_, tk in enumerate(mt):
-                        single = f(Xq, tk, **kw)
-                        singles = single if isinstance(single, tuple) else (single,)
-                        for a, b in zip(outs, singles):
-                            a, b = np.asarray(a), np.asarray(b)
-                            col = np.take(a, k_, axis=1)
-                            if col.shape != b.shape or not np.allclose(col, b, rtol=1e-9, atol=1e-9):
-                                ctx.violation("C13|%s|%s|multi_time-stack" % (cname, meth),
-                                              "multi_time result is not the per-time results stacked along axis 1",
-                                              {"class": cname, "method": meth, "kw": kw, "multi_time": mt, "k": k_,
-                                               "shapes": [list(a.shape), list(b.shape)]})
+                # (a list with repeats and a list without repeats that is not ascending: the order asked for is the order returned)
+                for mt in ([0.0, 2.0, 0.0], [2.5, 0.5, 1.0]):
+                    o = enc.outcome(lambda: f(Xq, multi_time=mt, **kw))
+                    real_calls += 1
+                    if o[0] != "ok":
+                        ctx.violation("C13|%s|%s|multi_time|%s" % (cname, meth, o[1]), "multi_time call fails",
+                                      {"class": cname, "method": meth, "kw": kw, "multi_time": mt})
+                    else:
+                        outs = o[1] if isinstance(o[1], tuple) else (o[1],)
+                        for k_, tk in enumerate(mt):
+                            single = f(Xq, tk, **kw)
+                            singles = single if isinstance(single, tuple) else (single,)
+                            for a, b in zip(outs, singles):
+                                a, b = np.asarray(a), np.asarray(b)
+                                col = np.take(a, k_, axis=1)
+                                if col.shape != b.shape or not np.allclose(col, b, rtol=1e-9, atol=1e-9):
+                                    ctx.violation("C13|%s|%s|multi_time-stack" % (cname, meth),
+                                                  "multi_time result is not the per-time results stacked along axis 1",
+                                                  {"class": cname, "method": meth, "kw": kw, "multi_time": mt, "k": k_,
+                                                   "shapes": [list(a.shape), list(b.shape)]})
                 # refusals
                 for what, call in (("both-time-and-multi_time", lambda: f(Xq, time=1.0, multi_time=[0.0, 1.0], **kw)),
                                    # a time that is "falsy" (0, 0.0, a one-element array holding 0) is still a time
